@@ -49,8 +49,8 @@ def v3000_bond_tokens(b: B3):
     if b.extra is not None:
         toks.append(b.extra)
     if b.endpts is not None:
-        toks.append("ENDPTS=(" + " ".join([f"{len(b.endpts)}"] + [f"{e}" for e in b.endpts]) + ")")
-        toks.append(f"ATTACH={b.attach}")
+        ep = "ENDPTS=(" + " ".join([f"{len(b.endpts)}"] + [f"{e}" for e in b.endpts]) + ")"
+        toks += [f"ATTACH={b.attach}", ep] if getattr(b, "attach_first", False) else [ep, f"ATTACH={b.attach}"]
     return toks
 
 
@@ -129,8 +129,8 @@ def v2000_prop_line(tag, entries):
     return f"M  {tag}{len(entries):3d}" + "".join(f" {a:3d} {v:3}" for a, v in entries)
 
 
-def v2000_text(atom_lines, bond_lines, prop_lines, *, header=("", "  REF", ""), atom_lists=(), eol="\n"):
-    counts = f"{len(atom_lines):3d}{len(bond_lines):3d}{len(atom_lists):3d}  0  0  0  0  0  0  0999 V2000"
+def v2000_text(atom_lines, bond_lines, prop_lines, *, header=("", "  REF", ""), atom_lists=(), eol="\n", chiral=0):
+    counts = f"{len(atom_lines):3d}{len(bond_lines):3d}{len(atom_lists):3d}  0{chiral:3d}  0  0  0  0  0999 V2000"
     lines = list(header) + [counts] + list(atom_lines) + list(bond_lines) + list(atom_lists) + list(prop_lines) + ["M  END"]
     return eol.join(lines) + eol
 
